@@ -190,3 +190,58 @@ theorem C20P_result (dg : Graph) (tab : LabelTable) (start delta : Int) (alphas 
                 exact C20P_bound g tab pr _ ptype a u
 
 end Dynetx
+
+namespace Dynetx
+
+/-! ### the single-label model of `Conformity.lean` is the one-profile instance -/
+
+theorem C20P_nodeScore_single (g : Graph) (tab : LabelTable) (l : Nat) (h : tab l = g.label)
+    (sp : List ((Node × Node) × List TPath)) (ptype alpha : Nat) (u : Node) :
+    nodeScoreP g tab [l] sp ptype alpha u = nodeScore g sp ptype alpha u := by
+  unfold nodeScoreP nodeScore
+  simp only [profileFrequency_single, h, labelFrequencyL_label]
+  rfl
+
+theorem c20p_profilesOf_single (l : Nat) : profilesOf [l] 1 = [[l]] := by
+  simp [profilesOf, combinations]
+
+/-- with one label whose table is the node attribute of the slice, `deltaConformityP` is `deltaConformity` with every
+    score list filed under the single profile `[l]` -/
+theorem C20P_single (dg : Graph) (tab : LabelTable) (l : Nat) (start delta : Int) (alphas : List Nat) (ptype : Nat)
+    (halpha : alphas ≠ [])
+    (htab : ∀ g, dg.timeSlice start (some (start + delta)) = .ok g → tab l = g.label) :
+    dg.deltaConformityP tab start delta alphas [l] 1 ptype =
+      (dg.deltaConformity start delta alphas ptype).map
+        (fun r => r.map (fun res => res.map (fun ar => (ar.1, [([l], ar.2)])))) := by
+  unfold Graph.deltaConformityP Graph.deltaConformity
+  have h1 : ¬ (1 > [l].length) := by simp
+  have h2 : ¬ ((alphas.length < 1 || [l].length < 1) = true) := by
+    cases alphas with
+    | nil => exact absurd rfl halpha
+    | cons a rest => simp
+  simp only [if_neg h1, if_neg h2]
+  cases hs : dg.timeSlice start (some (start + delta)) with
+  | error e => rfl
+  | ok g =>
+    have hl := htab g hs
+    simp only [Except.map]
+    cases minList g.ids with
+    | none => rfl
+    | some lo =>
+      cases maxList g.ids with
+      | none => rfl
+      | some hi =>
+        simp only
+        cases g.allTimeRespectingPaths (some (max start lo)) (some (min hi (start + delta))) none with
+        | error e => rfl
+        | ok sp =>
+          simp only [Except.map, Option.map_some, c20p_profilesOf_single, List.map_cons, List.map_nil, List.map_map]
+          congr 2
+          apply List.map_congr_left
+          intro a _
+          simp only [Function.comp, Prod.mk.injEq, true_and, List.cons.injEq, and_true]
+          apply List.map_congr_left
+          intro u _
+          simp only [C20P_nodeScore_single g tab l hl]
+
+end Dynetx
